@@ -105,14 +105,14 @@ def run(ck, F):
 
     # ---------------------------------------------------------------- project / decompose
     R2 = ck.rule('C10.same-bit', 'project, evaluated with its table unrolled, answers the single bit 1 << i exactly when row i is '
-                 'the first row that matches the name; the table is not longer than the carrier is wide', floor=6)
+                 'the first row that matches the name; the table is not longer than the carrier is wide', floor=2)
     R3 = ck.rule('C10.refuse-unknown', 'project has one answer per row and refuses (throws) exactly when no row matches: an '
-                 'unknown name is refused, not answered', floor=4)
+                 'unknown name is refused, not answered', floor=2)
     R6 = ck.rule('C10.decompose-exact', 'decompose, evaluated on the empty set, the full set, every singleton and every adjacent '
                  'pair, collects exactly the rows whose bit is set, in table order, into the collection it returns', floor=2)
     projects = [f for f in F.fn.values() if f['name'] == 'project' and f['q'].startswith('ipr::impl::(anon)::project<')]
     decomps = [f for f in F.fn.values() if f['name'] == 'decompose' and '(anon)::Basis<' in (f.get('parent') or '')]
-    if len(projects) < 4 or len(decomps) < 2:
+    if len(projects) < 1 or len(decomps) < 2:
         raise AnalysisBroken(f'{len(projects)} project / {len(decomps)} decompose instantiations found')
     WIDTH = {'unsigned int': 32, 'int': 32, 'unsigned long': 64, 'long': 64, 'unsigned long long': 64, 'unsigned short': 16, 'unsigned char': 8}
     Sx = Sym(F, opaque=lambda fid: F.fn.get(fid) is None, max_depth=24, max_paths=400)
@@ -212,21 +212,55 @@ def run(ck, F):
                  f'Lexicon::{acc} asks for {lits} (expected "{word}") and yields {val} (row bit {want})', loc=f['loc'], fn=f['id'],
                  detail={'word': word, 'bit': want})
     # Basis::operator[] and operator(): T{project(name, table, pred)}
-    R4b = ck.rule('C10.basis', 'Basis::operator[] / operator() wrap project over their own table with a name-equality predicate', floor=2)
+    R4b = ck.rule('C10.basis', 'Basis::operator[] / operator(), evaluated with their own table unrolled, answer the single bit 1 << i exactly when row i is the first row equal to the argument, and refuse when no row is', floor=2)
     bops = [f for f in F.fn.values() if '(anon)::Basis<' in (f.get('parent') or '') and '::(lambda' not in f['parent']
             and f['name'] in ('operator()', 'operator[]')]
     if len(bops) < 2:
         raise AnalysisBroken('Basis::operator()/[] instantiations not found')
     for f in sorted(bops, key=lambda f: f['id']):
-        cs = [n for n in walk(f['body']) if n.get('k') == 'call' and (n.get('callee') or {}).get('name') == 'project']
-        good = len(cs) == 1
-        if good:
-            c = cs[0]
-            a0, a1 = unwrap(c['args'][0]), unwrap(c['args'][1])
-            tb = 'std_qualifiers' if 'Qualifiers' in f['parent'] else 'std_specifiers'
-            good = a0.get('kind') == 'parm' and a0.get('idx') == 0 and a1.get('kind') == 'global' and a1.get('name') == tb
-        ck.check(R4b, contracts.short(f['parent']) + '::' + f['name'] + '/' + contracts.short(f['params'][0]['t']), good,
-                 f'{f["id"]} does not project its argument over its own table', loc=f['loc'], fn=f['id'])
+        # evaluated with its table unrolled (whatever it is written with: project, a search algorithm, a loop): the answer for
+        # `row i of the basis' own table is the first row equal to the argument` is the single bit i of the carrier; when no row
+        # is, the request is refused
+        tb = 'std_qualifiers' if 'Qualifiers' in f['parent'] else 'std_specifiers'
+        g = [x for x in F.globals if x['name'] == tb]
+        m2 = re.search(r'\[(\d+)\]', g[0]['t']) if g else None
+        if not m2:
+            raise AnalysisBroken(f'basis table {tb} not found as an array of known extent')
+        n = int(m2.group(1))
+        TAB = ('global', g[0]['q'])
+        try:
+            outs = Sx.run(f['id'])
+        except Unsupported as e:
+            raise AnalysisBroken(f'{f["id"]}: outside the evaluator language: {e}')
+        by_row, refusals, why = {}, 0, []
+        for st, k, v in outs:
+            hits = [c for c, val in st.conds if val and mentions(c, TAB)]
+            misses = [c for c, val in st.conds if not val and mentions(c, TAB)]
+            rows_missed = [j for j in range(n) if any(mentions(c, ('index', TAB, ('k', j, 'int'))) for c in misses)]
+            if k == 'throw':
+                refusals += 1
+                if hits:
+                    row = [j for j in range(n) if mentions(hits[0], ('index', TAB, ('k', j, 'int')))]
+                    why.append(f'refuses the name of row {row} although that row matches')
+                elif rows_missed != list(range(n)):
+                    why.append(f'refuses although only rows {rows_missed} were tried')
+                continue
+            val_ = strip(v)
+            while isinstance(val_, tuple) and val_ and val_[0] in ('castto', 'after'):
+                val_ = val_[2]
+            if len(hits) != 1 or not (isinstance(val_, tuple) and val_[0] == 'k'):
+                why.append(f'an answer {contracts.render(v, st, {})[:60]} not selected by exactly one matching row')
+                continue
+            row = [j for j in range(n) if mentions(hits[0], ('index', TAB, ('k', j, 'int')))]
+            if len(row) != 1 or rows_missed != list(range(row[0])) or not mentions(hits[0], ('param', 0)):
+                why.append(f'the answer {val_[1]} is not selected by `row i is the first row matching the argument`')
+                continue
+            by_row[row[0]] = val_[1]
+        wrong = {i: by_row.get(i) for i in range(n) if by_row.get(i) != (1 << i)}
+        ck.check(R4b, contracts.short(f['parent']) + '::' + f['name'] + '/' + contracts.short(f['params'][0]['t']),
+                 not wrong and not why and refusals >= 1,
+                 f'{f["id"]}: rows of {tb} whose name is not answered with the single bit of their position: {wrong}; {"; ".join(sorted(set(why)))}; '
+                 f'{refusals} refusing outcome(s)', loc=f['loc'], fn=f['id'])
 
     # ---------------------------------------------------------------- public routes
     R4c = ck.rule('C10.public-routes', 'Lexicon::specifiers / qualifiers / decompose have a single outcome: what the basis of their own '
